@@ -1571,7 +1571,7 @@ func c10Sources(tier string, fn func(kind, src string)) {
 
 // ------------------------------------------------------------------ varinput grammar
 
-var c10VarUnits = []string{"1", "“a”", "乙", "其乙", "（乙）", "（乙：1）", "（新建乙）", "【1】", "【=】", "真", "1 + 1", "1 / 0", "甲", "以1（加：1）"}
+var c10VarUnits = []string{"1", "“a”", "乙", "其乙", "（乙）", "（乙：1）", "（新建乙）", "【1】", "【=】", "真", "1 + 1", "1 / 0", "甲", "以1（加：1）", "以1（加：1）得到乙"}
 var c10VarSeps = []string{" ", " + ", " 且 ", "之", "#"}
 var c10VarTargets = []string{"甲", "1", "其甲", "甲之乙", "甲#1", "“a”", "真", "（甲）"}
 
@@ -1710,7 +1710,7 @@ func init() {
 			"direct seam: fresh boundary receiver of the owning type x every member (plus two absent names) x every argument tuple over a 24-value pool (arity <= 2 full pool, arity 3 over a 6-value sub-pool in quick; arity <= 3 full, arity 4 sub-pool in thorough); every receiver x every member name of every type (arity <= 1); library / predefined functions and constructors the same way. " +
 			"guards seam: Validate{Exact,Least,All}Params / AssertElement / AssertPropertyElement over type-string patterns x value tuples. " +
 			"program seam: one-call programs (method, property read / write, function call, 新建, 抛出, index read / write, every binary operator spelling, 如果 / 每当 / 遍历) with every argument slot over the full pool, arity <= 2 (method calls in quick: two arguments only on receivers whose type owns the method, one argument on every receiver; thorough: every receiver, and arity 3 over the sub-pool), values through 输入, result bound to a name and returned (and returned directly for arity <= 1). " +
-			"varinput seam: every text 甲 = <rhs> with <= 3 units over 14 units joined by 5 separators, two assignments joined by ； / newline, 8 target forms. " +
+			"varinput seam: every text 甲 = <rhs> with <= 3 units over 15 units joined by 5 separators, two assignments joined by ； / newline, 8 target forms. " +
 			"source seam: templates formatted first with a fitting and then with a non-fitting argument list (directly and inside a method); 8 programs whose calls never end (the outcome is a Zn error, the worker survives); every callable (function, method, 何为 getter, constructor) whose body is 1..2 statements over 12 forms that may yield no value or fail (nested definitions, declarations, loops and branches that never run, 输出, 显示, a malformed template, a failing file read, a failing JSON parse) x 12 ways of consuming the call's result; every history of <= 3 (4 thorough) operations (re-copy, 写入 / 移除 / index write, 后增 / 左移 / 新增) through three names holding copies of one 3-key dictionary or one 3-item list, then 显示, format and rendering of all three (list histories also change the unbound result of 合并; both kinds also put a collection into itself - directly, inside a literal, through a second name - before everything is displayed, compared and formatted); every walk (以K、V遍历) of a 3-key dictionary / 3-item list whose body, at pass 1..3, applies one or two of 6 operations to the collection being walked (remove each key, insert, overwrite, replace / shift, append, prepend, element write, replace) while every pass uses the loop variables in one of 5 ways. " +
 			"Enumeration is an odometer over table indexes, so cases are distinct; a case is non-trivial when the member's own code was reached (outcome is a value, or an error other than member-not-found / name-not-defined).",
 		Assumptions: []string{
